@@ -75,6 +75,7 @@ def install(res):
             raise
 
     wrapped = icontract.ensure(result_is_prefix_plus_encoded_legal_key, error=Broken)(check_key_helper)
+    st["orig"] = orig
     base.check_key_helper = wrapped
     hashmod.check_key_helper = wrapped
     return st
@@ -264,6 +265,61 @@ def suite_with_contracts(res):
     res.count("suite_contract_evaluations", rep["counters"].get("contract_evaluations", 0))
     for nodeid, why in rep.get("failed_by_contract", []):
         res.violation("contract-fires-in-the-repository-suite", "%s: %s" % (nodeid, why[-300:]), ("suite", nodeid))
+
+
+ST = {}
+
+
+def two_threads(res, base, tier):
+    """Key validation is a function of the key: two threads of an application (the threads of a PooledClient) validating
+    keys at the same time each get the answer for their own key - also when the process has already validated thousands of
+    different keys (whatever the function may keep between calls is then full).  Deterministic scheduler, line
+    granularity inside check_key_helper, every schedule with <= P preemptions."""
+    from vk import sched as S
+    from pymemcache.exceptions import MemcacheIllegalInputError
+    fn = ST.get("orig") or base.check_key_helper       # the library's own function (the contract wrapper is not scheduled)
+    codes = S.codes_of(fn)
+    for name, g in vars(base).items():          # helpers a refactoring may have split off
+        if callable(g) and getattr(g, "__module__", None) == base.__name__ and hasattr(g, "__code__") and "key" in name.lower():
+            codes += [c for c in S.codes_of(g) if c not in codes]
+    S.install(codes, "ins")         # instruction granularity: the windows of interest lie inside single lines
+    for j in range(2600):
+        base.check_key_helper("warm-%d" % j, False, b"")
+    counter = [0]
+    P = 2 if tier == "quick" else 3
+    for ka, kb_ in (("fresh-a-%d", "fresh-b-%d"), ("fresh-c-%d", "bad key %d"), ("caf\u00e9-%d", "fresh-d-%d")):
+        def make(sch, ka=ka, kb_=kb_):
+            counter[0] += 1
+            keys = {0: [ka % counter[0], "again-%d" % counter[0]], 1: [kb_ % counter[0], "more-%d" % counter[0]]}
+            outs = {0: [], 1: []}
+
+            def prog(t):
+                def run():
+                    for k in keys[t]:
+                        try:
+                            outs[t].append((k, "ret", base.check_key_helper(k, False, b"p:")))
+                        except S.SchedAbort:
+                            raise
+                        except BaseException as e:
+                            outs[t].append((k, "exc", e))
+                return run
+
+            def judge(ok, sch_):
+                for t in (0, 1):
+                    for k, kind, r in outs[t]:
+                        res.count("keys_validated_under_concurrency")
+                        legal, wire = refs.key_legal(k, False, b"p:")
+                        if legal and not (kind == "ret" and r == wire):
+                            return ("two-threads:rejects-legal:check_key_helper", "thread %d: check_key_helper(%r) -> %s %r, expected %r" % (t, k, kind, r, wire))
+                        if not legal and not (kind == "exc" and type(r) is MemcacheIllegalInputError):
+                            return ("two-threads:accepts-illegal-or-wrong-exception:check_key_helper",
+                                    "thread %d: check_key_helper(%r) -> %s %r for an illegal key" % (t, k, kind, r))
+                return None
+            return [prog(0), prog(1)], judge
+        ex, exhaustive, bad = S.explore_threads(make, 2, P, 700 if tier == "quick" else 12000, on_run=lambda sch: res.count("two_thread_schedules"))
+        if bad:
+            res.violation(bad[0], bad[1] + " ; schedule %r" % (sorted(bad[2].items(), key=repr),), ("two-threads", ka))
+        res.case(("two-threads", ka))
 
 
 def shard(tier, seed, idx, n):
@@ -486,6 +542,9 @@ def shard(tier, seed, idx, n):
         res.case((key, uni, prefix) if nontrivial(key, uni, prefix) else None,
                  {"key": repr(_short(key)), "unicode": uni, "prefix_len": len(prefix), "legal": legal}
                  if res.evaluations % 4999 == 0 else None)
+    if idx == n - 1:
+        ST.update(st)
+        two_threads(res, base, tier)
     res.extra["exhaustive"] = True
     res.extra["exhaustive_part"] = "keys of length 1..3 over the 11 byte classes; every byte value at every position of a 10-byte key"
     return res
@@ -495,6 +554,13 @@ def replay(case):
     res = common.Result()
     st = install(res)
     import pymemcache.client.base as base
+    if case and case[0] == "two-threads":
+        ST.update(st)
+        two_threads(res, base, "quick")
+        res.case(case)
+        for cn in REQUIRED_COUNTERS:
+            res.count(cn)
+        return res
     name, key, uni, prefix = case
     helper = base.check_key_helper
     c = base.Client(("mc1", 11211), allow_unicode_keys=uni, key_prefix=prefix)
